@@ -266,6 +266,16 @@ func findRangeLoopOverField(fn *ssa.Function, name string) *loopInfo {
 	for _, l := range rangeLoops(fn) {
 		t := NewTB().Of(l.over)
 		if t.Op == "field" && t.Name == name {
+			// the FROM-less arm of exec (`dual`: one row, its own small pipeline) is not the scan of the table
+			dual := false
+			for _, fc := range factsAt(l.header) {
+				if ft := NewTB().Of(fc.cond); ft.Op == "field" && ft.Name == "dual" && fc.truth {
+					dual = true
+				}
+			}
+			if dual {
+				continue
+			}
 			return l
 		}
 	}
